@@ -149,6 +149,8 @@ package rueidis
 //@   safety C15
 //@   assert [C16 coordinates-decode-in-both-reply-shapes] at append: (ran(cord) && (cord[0].typ == ',' || cord[0].typ == '$' || cord[0].typ == '+') && (cord[1].typ == ',' || cord[1].typ == '$' || cord[1].typ == '+')) ==> (loc.Longitude == first(util.ToFloat64(cord[0].string())) && loc.Latitude == first(util.ToFloat64(cord[1].string())))
 //@   assert [C16 the-name-is-the-first-field-of-an-entry] at append: (ran(info) ==> loc.Name == info[0].string()) && (!ran(info) ==> loc.Name == v.string())
+//@   assert [C16 a-non-empty-second-field-is-the-distance] at append: (ran(info) && len(info) >= 2 && info[1].string() != "") ==> loc.Dist == first(util.ToFloat64(info[1].string()))
+//@   assert [C16 an-integer-second-field-is-the-hash] at append: ((ran(info) && len(info) >= 2 && info[1].string() == "" && info[1].typ == ':') ==> loc.GeoHash == info[1].intlen) && (!ran(info) ==> loc.GeoHash == 0)
 
 //@ func RedisMessage.AsXRangeSlice
 //@   safety C15
